@@ -5,7 +5,7 @@
 # 3. keep as /verif/seeded/Cxx-k/
 set -u
 P="$1"; K="$2"; shift 2
-WT=/tmp/wt_$P
+WT=${WT_PREFIX:-/tmp/wt_}$P
 cd $WT || exit 2
 git checkout -q -- src; rm -rf tests; mkdir -p tests
 cp out/demo$K.rs tests/demo$K.rs
@@ -32,17 +32,17 @@ for q in $P "$@"; do
   echo "[$P-$K] check $q -> exit $rc :: $(echo "$out" | grep -A1 -m1 '^VIOLATION' | tail -1 | cut -c1-220)"
 done
 git -C /repo checkout -- .
-D=/verif/seeded/$P-$K
+D=/verif/seeded/$P-${ID_PREFIX:-}$K
 mkdir -p $D
 cp $WT/out/patch$K.diff $D/patch.diff; cp $WT/out/demo$K.rs $D/demo.rs; cp $WT/out/meta$K.txt $D/meta.txt
 python3 - "$P" "$K" "$res" "$base" "$suite" "$mut" <<'PY'
 import json,sys
-p,k,res,base,suite,mut=sys.argv[1:7]
-meta=open(f'/verif/seeded/{p}-{k}/meta.txt').read()
-json.dump({"id":f"{p}-{k}","breaks_property":p,"source":"independent sub-agent given only the property text and a scratch worktree",
+p,k,res,base,suite,mut=sys.argv[1:7]; import os; idp=os.environ.get('ID_PREFIX','')
+meta=open(f'/verif/seeded/{p}-{idp}{k}/meta.txt').read()
+json.dump({"id":f"{p}-{idp}{k}","breaks_property":p,"source":"independent sub-agent given only the property text and a scratch worktree",
  "needs_to_manifest":meta.strip(),
  "confirmed":{"demo_on_clean_tree":base,"crate_suite_with_patch":suite,"demo_with_patch":mut},
  "checks_run_against_it":{kv.split('=')[0]:("detected (exit 1)" if kv.split('=')[1]=="1" else "exit "+kv.split('=')[1]) for kv in res.split()}},
- open(f'/verif/seeded/{p}-{k}/meta.json','w'),indent=1)
+ open(f'/verif/seeded/{p}-{idp}{k}/meta.json','w'),indent=1)
 PY
 echo "[$P-$K] stored in $D ($res)"
